@@ -418,6 +418,74 @@ func c10InitIn(c *eng.Ctx, init *ssa.Function, inner bool) {
 			}
 			return eng.InstrStr(hit) + " reached first: " + p.PathStr(path)
 		}())
+		// a failed fetch ends the routine only because the caller's context
+		// ended (or because waiting is pointless with a file-backed client):
+		// with those two edges cut, no return is reachable from the failure
+		{
+			cut := func(b *ssa.BasicBlock, i int) bool {
+				ifi, ok := b.Instrs[len(b.Instrs)-1].(*ssa.If)
+				if !ok {
+					return true
+				}
+				cd := eng.CondOf(ifi.Cond, i == 0)
+				if isCtxErrTest(ifi) {
+					if _, isNil, _ := cd.ErrCheck(); !isNil {
+						return false // the context-ended edge
+					}
+					return true
+				}
+				if v, truth, isB := cd.Bool(); isB && truth {
+					if ex, isEx := eng.Origin(v).(*ssa.Extract); isEx && ex.Index == 1 {
+						if ta, isTA := ex.Tuple.(*ssa.TypeAssert); isTA && eng.IsNamed(ta.AssertedType, setecPkg, "FileClient") {
+							return false // file-backed client: fail at once
+						}
+					}
+				}
+				// after a failure the count of missing names is not zero
+				if op, x, y, isCmp := cd.Cmp(); isCmp && op == token.EQL {
+					if k, isK := eng.ConstInt(y); isK && k == 0 {
+						if ph, isPhi := x.(*ssa.Phi); isPhi && isIntType(ph.Type()) {
+							_, phis := eng.PhiLeaves(ph)
+							for q := range phis {
+								for _, e := range q.Edges {
+									if bo, isB := e.(*ssa.BinOp); isB && bo.Op == token.ADD {
+										return false
+									}
+								}
+							}
+						}
+					}
+				}
+				return true
+			}
+			if isStoreClientInvoke(&fetch.Call) {
+				giveUp := eng.IsReturn
+				if inner {
+					// a fetch pass in a helper ends normally with its count; giving up is its error return
+					giveUp = func(x ssa.Instruction) bool {
+						r, isR := x.(*ssa.Return)
+						return isR && !eng.IsNilConst(eng.Origin(eng.RetVals(r)[errResultIndex(init)]))
+					}
+				}
+				hitR, pathR := eng.Search(init, fetch, eng.AndFilters(eng.AssumeErr(ferr, false), cut), func(x ssa.Instruction) bool {
+					// the next fetch round: the failure was retried
+					if call, ok := x.(*ssa.Call); ok {
+						for _, w := range waits {
+							if w == call {
+								return true
+							}
+						}
+					}
+					return false
+				}, giveUp)
+				c.Check(hitR == nil, "R-C10-3", init, fetch.Pos(), "giving up after a failed "+eng.CallStr(&fetch.Call), "a failed fetch is retried until the caller's context ends: no other kind of failure makes the construction return", func() string {
+					if hitR == nil {
+						return ""
+					}
+					return "return at " + p.Pos(hitR.Pos()) + " reachable with the context alive: " + p.PathStr(pathR)
+				}())
+			}
+		}
 		// the cancelled edge returns non-nil
 		eng.Instrs(init, func(x ssa.Instruction) {
 			if !isCtxErrTest(x) {
